@@ -1,5 +1,5 @@
 (* SkeletonFacts.v -- proofs about the statement skeleton (Skeleton.v) *)
-From CssV Require Import Base Tokenizer Upto UptoFacts Skeleton.
+From CssV Require Import Base Tokenizer Gen.UptoGen Upto UptoFacts Skeleton.
 
 (* the mode in which handler k delimits its statement *)
 Definition kmd (k : kind) : mode := mode_of (fst (kmode k)) None.
@@ -90,6 +90,247 @@ Lemma junk_declaration_skipped_lemma d1 k junk d2 :
   Statements cls_decl d1 -> JunkStmt cls_decl k junk ->
   decl_block (d1 ++ junk ++ d2) = decl_block d1 ++ [IStmt k junk] ++ decl_block d2.
 Proof. apply junk_skipped_gen. Qed.
+
+(* ---------------------------------------------------------------- tie to the generated handler tables *)
+Definition all_kinds : list kind :=
+  [KCharset; KImport; KNamespace; KVariables; KFontFace; KMedia; KPage; KUnknown; KRuleset;
+   KDeclIdent; KDeclUnexpected; KDeclAt].
+Definition sheet_kinds : list kind :=
+  [KCharset; KImport; KNamespace; KVariables; KFontFace; KMedia; KPage; KUnknown; KRuleset].
+
+(* every handler of the model exists in the current source and passes a flag the model knows *)
+Lemma handlers_generated :
+  forallb (fun k => match kcall k with
+                    | Some (n, _) => match flag_of_name n with Some _ => true | None => false end
+                    | None => false end) all_kinds = true.
+Proof. reflexivity. Qed.
+
+(* the two handlers of the @media loop make the same call as the sheet handlers (kmode is shared), and the
+   head of @media / the rule-set split pull with the flags the model uses, in this order *)
+Lemma media_calls_generated :
+  call_of gen_media_calls (s "atrule") = Some ([], true) /\ call_of gen_media_calls (s "ruleset") = Some ([], true)
+  /\ forallb (fun k => match kcall k with Some ([], true) => true | _ => false end) sheet_kinds = true
+  /\ gen_media_head_calls = [(flag_name FMQEnd, false); (flag_name FBlockStart, false); (flag_name FMediaEnd, false)]
+  /\ gen_stylerule_calls = [(flag_name FBlockStart, false); (flag_name FBlockEnd, false)].
+Proof. repeat split; reflexivity. Qed.
+
+(* the dispatch tables: token type -> handler, as the productions dicts of the current source say *)
+Definition tok_of_type (y : str) : tok := mkTok y [] (s "x") 0 0.
+Definition cls_agrees (c : tclass) (h : str) : bool :=
+  match c with
+  | CSkip => eqs h (s "S") || eqs h (s "NOOP")
+  | CComment => eqs h (s "COMMENT")
+  | CStmt k => eqs h (handler_name k)
+  end.
+Definition other_types : list str :=
+  [s "IDENT"; s "CHAR"; s "NUMBER"; s "STRING"; s "HASH"; s "FUNCTION"; s "URI"; s "DIMENSION"; s "PERCENTAGE";
+   s "INVALID"; s "UNICODE-RANGE"; s "INCLUDES"; s "DASHMATCH"].
+
+Lemma cls_sheet_generated :
+  forallb (fun p => cls_agrees (cls_sheet (tok_of_type (fst p))) (snd p)) gen_sheet_prods = true
+  /\ forallb (fun y => cls_agrees (cls_sheet (tok_of_type y)) gen_sheet_default) other_types = true.
+Proof. split; reflexivity. Qed.
+
+Lemma cls_media_generated :
+  forallb (fun p => match cls_media (tok_of_type (fst p)) with
+                    | CComment => eqs (snd p) (s "COMMENT")
+                    | CStmt KRuleset => false
+                    | CStmt _ => eqs (snd p) (s "atrule")
+                    | CSkip => false end) gen_media_prods = true
+  /\ forallb (fun y => match cls_media (tok_of_type y) with CStmt KRuleset => true | _ => false end)
+              (s "VARIABLES_SYM" :: s "CDO" :: s "CDC" :: other_types) = true
+  /\ gen_media_default = s "ruleset".
+Proof. repeat split; reflexivity. Qed.
+
+Lemma cls_decl_generated :
+  gen_decl_prods = [(s "IDENT", s "ident"); (s "CHAR", s "char")] /\ gen_decl_default = s "unexpected"
+  /\ cls_decl (tok_of_type (s "IDENT")) = CStmt KDeclIdent /\ cls_decl (tok_of_type (s "CHAR")) = CStmt KDeclUnexpected
+  /\ cls_decl (mkTok (s "CHAR") [] (s ";") 0 0) = CSkip
+  /\ forallb (fun y => match cls_decl (tok_of_type y) with CStmt KDeclUnexpected => true | _ => false end)
+              (tl (tl other_types)) = true.
+Proof. repeat split; reflexivity. Qed.
+
+(* ---------------------------------------------------------------- the order state *)
+Lemma ord_skip wf ts : forall n st, sheet_ord wf ts n st = sheet_ord wf (skipn n ts) 0 st.
+Proof.
+  induction ts as [|t r IH]; intros n st.
+  - destruct n; reflexivity.
+  - destruct n as [|n]; [reflexivity|]. simpl. apply IH.
+Qed.
+
+Lemma ord_stmt wf k t r rest st :
+  cls_sheet t = CStmt k -> StmtRun (kmd k) (t :: r) ->
+  sheet_ord wf ((t :: r) ++ rest) 0 st =
+  (let '(st', kept) := ord_step wf st k (t :: r) in
+   let '(l, e) := sheet_ord wf rest 0 st' in ((IStmt k (t :: r), kept) :: l, e)).
+Proof.
+  intros Hc Hj. cbn [app sheet_ord]. rewrite Hc, (pull_stmtrun _ _ _ _ Hj).
+  destruct (ord_step wf st k (t :: r)) as [st' kept].
+  rewrite ord_skip. cbn [length]. rewrite Nat.sub_succ, Nat.sub_0_r, skipn_length_app. reflexivity.
+Qed.
+
+Lemma ord_app wf g1 g2 :
+  Statements cls_sheet g1 -> forall st,
+  sheet_ord wf (g1 ++ g2) 0 st =
+  (let '(l1, e1) := sheet_ord wf g1 0 st in let '(l2, e2) := sheet_ord wf g2 0 e1 in (l1 ++ l2, e2)).
+Proof.
+  induction 1 as [|t g Hc Hg IH|t g Hc Hg IH|k j g (t & r & -> & Hc & Hj) Hg IH]; intros st.
+  - cbn. now destruct (sheet_ord wf g2 0 st).
+  - cbn [app sheet_ord]. rewrite Hc. apply IH.
+  - cbn [app sheet_ord]. rewrite Hc, IH.
+    destruct (sheet_ord wf g 0 (Nat.max 1 st)) as [l1 e1]. now destruct (sheet_ord wf g2 0 e1).
+  - rewrite <- app_assoc, (ord_stmt _ _ _ _ _ _ Hc Hj), (ord_stmt _ _ _ _ _ _ Hc Hj).
+    destruct (ord_step wf st k (t :: r)) as [st' kept]. rewrite IH.
+    destruct (sheet_ord wf g 0 st') as [l1 e1]. now destruct (sheet_ord wf g2 0 e1).
+Qed.
+
+(* a discarded statement of kind k met in state st leaves the state alone *)
+Definition neutral (k : kind) (st : nat) : bool :=
+  let '(th, nx, keeps) := ord_sig k in
+  (match th with Some t => Nat.ltb t st | None => false end) || keeps
+  || Nat.eqb (match nx with Some n => n | None => Nat.max 1 st end) st.
+
+Lemma ord_step_discarded wf st k run :
+  wf k run = false -> neutral k st = true -> ord_step wf st k run = (st, false).
+Proof.
+  unfold ord_step, neutral. destruct (ord_sig k) as [[th nx] keeps]. intros Hwf Hn.
+  destruct (match th with Some t => Nat.ltb t st | None => false end); [reflexivity|].
+  rewrite Hwf. cbn [orb] in *. destruct keeps; [reflexivity|]. cbn [orb negb] in *.
+  apply Nat.eqb_eq in Hn. now rewrite Hn.
+Qed.
+
+(* which kinds are neutral in which states, as the CURRENT source has it (computed from Gen/UptoGen.v):
+   rule sets, @import, @namespace, @variables in every state (fix "a discarded statement does not advance the
+   order state"); unknown at-rules and @charset once anything at all came before; @media/@page/@font-face only
+   when the state is already 3 *)
+Lemma neutral_kinds st :
+  neutral KRuleset st = true /\ neutral KImport st = true /\ neutral KNamespace st = true
+  /\ neutral KVariables st = true
+  /\ ((1 <= st)%nat -> neutral KUnknown st = true /\ neutral KCharset st = true)
+  /\ (st = 3%nat -> neutral KMedia st = true /\ neutral KPage st = true /\ neutral KFontFace st = true).
+Proof.
+  assert (forall b c, b || true || c = true) as Ho by (intros [] []; reflexivity).
+  split; [reflexivity|]. split; [apply Ho|]. split; [apply Ho|]. split; [apply Ho|]. split.
+  - intros H. destruct st as [|n]; [lia|]. split; [|reflexivity].
+    unfold neutral. cbn. apply Nat.eqb_refl.
+  - intros ->. repeat split; reflexivity.
+Qed.
+
+Lemma junk_statement_skipped_order_lemma wf g1 k junk g2 st :
+  Statements cls_sheet g1 -> JunkStmt cls_sheet k junk -> wf k junk = false ->
+  neutral k (snd (sheet_ord wf g1 0 st)) = true ->
+  sheet_ord wf (g1 ++ junk ++ g2) 0 st =
+  (let '(l1, e1) := sheet_ord wf g1 0 st in
+   let '(l2, e2) := sheet_ord wf g2 0 e1 in (l1 ++ (IStmt k junk, false) :: l2, e2)).
+Proof.
+  intros Hg (t & r & -> & Hc & Hj) Hwf Hn. rewrite (ord_app _ _ _ Hg).
+  destruct (sheet_ord wf g1 0 st) as [l1 e1]. cbn [snd] in Hn.
+  rewrite (ord_stmt _ _ _ _ _ _ Hc Hj), (ord_step_discarded _ _ _ _ Hwf Hn).
+  now destruct (sheet_ord wf g2 0 e1).
+Qed.
+
+(* ---------------------------------------------------------------- the two splits at '{' ... '}' *)
+Lemma separate_end_last (x : list tok) e : separate_end (x ++ [e]) = (x, Some e).
+Proof.
+  unfold separate_end. destruct x as [|x0 x']; [reflexivity|].
+  cbn [app]. change (x0 :: x' ++ [e]) with ((x0 :: x') ++ [e]). rewrite removelast_last.
+  f_equal. f_equal. apply last_last.
+Qed.
+
+Lemma bopen0_val t : bclass_of t = BOpen 0 -> val t = s "{".
+Proof.
+  unfold bclass_of, is_ident. destruct t as [y rw v l cl]; cbn [val ty]. cbv zeta.
+  destruct (eqs y (s "IDENT")); [discriminate|].
+  destruct (eqs v (s "{")) eqn:E; [intros _; now apply eqs_true|].
+  destruct (eqs v (s "}")); [discriminate|]. destruct (eqs v (s "[")); [discriminate|].
+  destruct (eqs v (s "]")); [discriminate|].
+  destruct (eqs v (s "(") || is_function (mkTok y rw v l cl)); [discriminate|].
+  destruct (eqs v (s ")")); discriminate.
+Qed.
+
+Lemma bclose0_val t : bclass_of t = BClose 0 -> val t = s "}" /\ is_ident t = false.
+Proof.
+  unfold bclass_of, is_ident. destruct t as [y rw v l cl]; cbn [val ty]. cbv zeta.
+  destruct (eqs y (s "IDENT")); [discriminate|].
+  destruct (eqs v (s "{")); [discriminate|].
+  destruct (eqs v (s "}")) eqn:E; [intros _; split; [now apply eqs_true|reflexivity]|].
+  destruct (eqs v (s "[")); [discriminate|]. destruct (eqs v (s "]")); [discriminate|].
+  destruct (eqs v (s "(") || is_function (mkTok y rw v l cl)); [discriminate|].
+  destruct (eqs v (s ")")); discriminate.
+Qed.
+
+Lemma brace_stops fl t :
+  c0 (mode_of fl None) = (-1, 0, 0)%Z -> ends (mode_of fl None) = s "{" -> bclass_of t = BOpen 0 ->
+  stops (mode_of fl None) (bump (c0 (mode_of fl None)) t) t = true.
+Proof.
+  intros Hc0 He Ho. rewrite Hc0, (bump_open _ _ _ Ho). cbn [shift]. unfold stops, isendtok. cbn [zero Z.add Z.eqb andb].
+  rewrite He, (bopen0_val _ Ho).
+  assert (is_ident t = false) as ->.
+  { unfold bclass_of in Ho. destruct (is_ident t); [discriminate|reflexivity]. }
+  reflexivity.
+Qed.
+
+Lemma close_isend fl t :
+  ends (mode_of fl None) = s "}" -> bclass_of t = BClose 0 -> isendtok (mode_of fl None) t = true.
+Proof. intros He Hc. unfold isendtok. destruct (bclose0_val _ Hc) as [-> ->]. rewrite He. reflexivity. Qed.
+
+(* cssstylerule.py:107-159: a rule set  sel { body }  is split at the first top-level '{' and its '}' whatever
+   balanced soup sel and body are (strings, urls, functions, nested brackets), and the declaration parser gets
+   exactly body                                                                                                 *)
+Lemma ruleset_split_lemma sel lb body rb :
+  PreBrace (mode_of FBlockStart None) sel -> bclass_of lb = BOpen 0 -> is_eof lb = false ->
+  Balanced body -> bclass_of rb = BClose 0 -> is_eof rb = false ->
+  match sel ++ [lb] with t0 :: _ => starts (s "@") (val t0) = false | [] => False end ->
+  ruleset_split (sel ++ lb :: body ++ [rb])
+  = mkRS (sel ++ [lb]) (body ++ [rb]) None (Some (decl_block body)).
+Proof.
+  intros Hsel Ho Heo Hb Hc Hec Hgate. unfold ruleset_split.
+  rewrite (prebrace_upto FBlockStart (-1)%Z sel lb (body ++ [rb]) eq_refl Hsel
+             (or_intror (brace_stops FBlockStart lb eq_refl eq_refl Ho))).
+  pose proof (block_upto FBlockEnd body rb [] eq_refl eq_refl Hb Hc Hec (close_isend FBlockEnd rb eq_refl Hc)) as H2.
+  rewrite H2. cbn [hd_error]. rewrite separate_end_last, Hec.
+  destruct (bclose0_val _ Hc) as [Hv _]. rewrite Hv. cbn [eqs N.eqb Pos.eqb andb].
+  destruct (sel ++ [lb]) as [|t0 rest0] eqn:E; [contradiction|]. rewrite Hgate. reflexivity.
+Qed.
+
+(* cssmediarule.py:108-236: '@media' mq { body }: the media query part ends at the first top-level '{' (no STRING
+   at depth 0 before it), the children are exactly body, and the inner loop runs on them *)
+Lemma media_split_lemma mqs lb body rb :
+  PreBrace (mode_of FMQEnd None) mqs -> bclass_of lb = BOpen 0 -> is_eof lb = false -> tyis lb "STRING" = false ->
+  Balanced body -> bclass_of rb = BClose 0 -> is_eof rb = false ->
+  media_split (mqs ++ lb :: body ++ [rb])
+  = mkMP (mqs ++ [lb]) [] (body ++ [rb]) None (Some (media_inner body)).
+Proof.
+  intros Hpre Ho Heo Hst Hb Hc Hec. unfold media_split.
+  rewrite (prebrace_upto FMQEnd (-1)%Z mqs lb (body ++ [rb]) eq_refl Hpre
+             (or_intror (brace_stops FMQEnd lb eq_refl eq_refl Ho))).
+  rewrite separate_end_last. cbn [snd]. rewrite Hst, (bopen0_val _ Ho). cbn [eqs N.eqb Pos.eqb andb negb].
+  pose proof (block_upto FMediaEnd body rb [] eq_refl eq_refl Hb Hc Hec (close_isend FMediaEnd rb eq_refl Hc)) as H2.
+  rewrite H2. cbn [hd_error]. rewrite separate_end_last, Hec.
+  destruct (bclose0_val _ Hc) as [Hv _]. rewrite Hv. reflexivity.
+Qed.
+
+(* the whole @media statement with a junk child: the children before and after it are dispatched as if it were absent *)
+Lemma media_with_junk_lemma mqs lb g1 k junk g2 rb :
+  PreBrace (mode_of FMQEnd None) mqs -> bclass_of lb = BOpen 0 -> is_eof lb = false -> tyis lb "STRING" = false ->
+  Balanced (g1 ++ junk ++ g2) -> bclass_of rb = BClose 0 -> is_eof rb = false ->
+  Statements cls_media g1 -> JunkStmt cls_media k junk ->
+  mp_inner (media_split (mqs ++ lb :: (g1 ++ junk ++ g2) ++ [rb]))
+  = Some (media_inner g1 ++ [IStmt k junk] ++ media_inner g2).
+Proof.
+  intros Hpre Ho Heo Hst Hb Hc Hec Hg Hj.
+  rewrite (media_split_lemma _ _ _ _ Hpre Ho Heo Hst Hb Hc Hec). cbn [mp_inner].
+  now rewrite (junk_statement_skipped_media_lemma _ _ _ _ Hg Hj).
+Qed.
+
+(* tokens whose VALUE merely contains bracket or end characters -- STRING ("a{b;}"), URI (url(x;})), HASH, ... --
+   are atoms for the counters and are never end characters: only a one-character CHAR-like value is compared *)
+Lemma opaque_token_atom t c1 c2 rest :
+  val t = c1 :: c2 :: rest -> is_function t = false -> bclass_of t = BAtom.
+Proof.
+  unfold bclass_of. intros Hv Hf. rewrite Hv, Hf. destruct (is_ident t); [reflexivity|].
+  destruct c1; destruct c2; try reflexivity; cbn; repeat (destruct p; try reflexivity); destruct rest; reflexivity.
+Qed.
 
 (* ---------------------------------------------------------------- concrete tokens, witnesses *)
 Definition c_ (v : string) := T "CHAR" v.
@@ -428,3 +669,45 @@ Proof.
   - atom. atom. atom. atom. atom. atom. constructor.
   - constructor.
 Qed.
+
+(* ---------------------------------------------------------------- examples for the order state and the splits *)
+(* '@import "a"; 3{} @import "b";' with a well-formedness oracle that rejects statements starting with a NUMBER *)
+Definition wf_ex (k : kind) (run : list tok) : bool :=
+  match run with t :: _ => negb (tyis t "NUMBER" || is_function t) | [] => false end.
+Definition imp (u : string) := [T "IMPORT_SYM" "@import"; sp; T "STRING" u; c_ ";"].
+Definition junk_num := [T "NUMBER" "3"; c_ "{"; c_ "}"].
+
+Lemma order_example :
+  sheet_ord wf_ex ((imp """a""" ++ [sp]) ++ junk_num ++ sp :: imp """b""") 0 0
+  = ([(IStmt KImport (imp """a"""), true); (IStmt KRuleset junk_num, false); (IStmt KImport (imp """b"""), true)], 1%nat)
+  /\ sheet_ord wf_ex ((imp """a""" ++ [sp]) ++ junk_fn ++ sp :: imp """b""") 0 0
+  = ([(IStmt KImport (imp """a"""), true); (IStmt KRuleset junk_fn, false); (IStmt KImport (imp """b"""), true)], 1%nat).
+Proof. split; vm_compute; reflexivity. Qed.
+
+(* '@media' screen and (min-width:1px) { a{x:"a{b;}" url(x;})} f() {} b{y:2} }  -- tokens after the MEDIA_SYM *)
+Definition mq_ex := [sp; T "IDENT" "screen"; sp; T "IDENT" "and"; sp; c_ "("; T "IDENT" "min-width"; c_ ":";
+                     T "DIMENSION" "1px"; c_ ")"; sp].
+Definition rule_str := [T "IDENT" "a"; c_ "{"; T "IDENT" "x"; c_ ":"; T "STRING" """a{b;}"""; sp; T "URI" "url(x;})"; c_ "}"].
+
+Lemma mq_ex_prebrace : PreBrace (mode_of FMQEnd None) mq_ex.
+Proof.
+  unfold mq_ex. repeat (apply PB_atom; [reflexivity|reflexivity|reflexivity|]).
+  apply (PB_group _ (c_ "(") [T "IDENT" "min-width"; c_ ":"; T "DIMENSION" "1px"] (c_ ")") [sp] 1); try reflexivity.
+  - batom. batom. batom. constructor.
+  - apply PB_atom; [reflexivity|reflexivity|reflexivity|constructor].
+Qed.
+
+Lemma rule_str_stmt : JunkStmt cls_media KRuleset rule_str.
+Proof.
+  exists (T "IDENT" "a"), (tl rule_str). repeat split.
+  apply (SR_block _ [T "IDENT" "a"] (c_ "{") [T "IDENT" "x"; c_ ":"; T "STRING" """a{b;}"""; sp; T "URI" "url(x;})"] (c_ "}") 0);
+    try reflexivity.
+  - atom. constructor.
+  - batom. batom. batom. batom. batom. constructor.
+Qed.
+
+Lemma media_split_example :
+  mp_inner (media_split (mq_ex ++ c_ "{" :: ((rule_str ++ [sp]) ++ junk_fn ++ sp :: rule_b) ++ [c_ "}"]))
+  = Some [IStmt KRuleset rule_str; IStmt KRuleset junk_fn; IStmt KRuleset rule_b]
+  /\ bclass_of (T "STRING" """a{b;}""") = BAtom /\ bclass_of (T "URI" "url(x;})") = BAtom.
+Proof. repeat split; vm_compute; reflexivity. Qed.
